@@ -82,6 +82,7 @@ struct Sock {
   int64_t acc_at = 0;
   int closes = 0;
   bool nodelay = false;
+  size_t in_hold_sent = 0;  // inbound data is withheld until this many bytes were sent (a server that answers after reading the request)
 };
 
 struct PollRec {
@@ -108,6 +109,7 @@ struct Kernel {
   bool logging = false;
   int new_conn_fd_for_accept = -1;
   std::vector<int> accepted_fds;
+  void (*on_socket)(int fd) = nullptr;  // called for every descriptor returned by socket()
 
   void reset() { *this = Kernel(); }
   Sock *get(int fd) {
@@ -173,7 +175,7 @@ struct Kernel {
     }
     if (s.in_end) {
       r |= POLLIN;
-    } else if (!s.in.empty() && s.in_at <= now) {
+    } else if (!s.in.empty() && s.in_at <= now && s.sent.size() >= s.in_hold_sent) {
       r |= POLLIN;
       const InItem &h = s.in.front();
       if (h.hup && h.t == IN_EOF) r |= POLLHUP;
@@ -295,7 +297,7 @@ ssize_t __wrap_recv(int fd, void *buf, size_t len, int flags) {
     errno = h.err;
     return -1;
   }
-  if (s->in.empty() || s->in_at > k.now) {
+  if (s->in.empty() || s->in_at > k.now || s->sent.size() < s->in_hold_sent) {
     errno = EAGAIN;
     return -1;
   }
@@ -421,7 +423,9 @@ int __wrap_socket(int dom, int type, int proto) {
   (void)dom;
   (void)type;
   (void)proto;
-  return k.create();
+  int fd = k.create();
+  if (k.on_socket) k.on_socket(fd);
+  return fd;
 }
 
 int __wrap_close(int fd) {
